@@ -41,7 +41,9 @@ func main() {
 			}
 			mx, mk := 0, 0
 			for _, op := range c.Ops {
-				if n := len(op.Doc.String()); n > mx {
+				n := len(op.Doc.String())
+				fmt.Printf("LEN %d\n", n)
+				if n > mx {
 					mx, mk = n, op.K
 				}
 			}
